@@ -6,65 +6,6 @@ import vlib
 LEVEL = "model_checking"
 
 
-def corrupt_and_expect_reject(ctx, module, path, mutate, what):
-    """B3: a corrupted copy of an accepted trace must be rejected, otherwise the binding is vacuous."""
-    evs = vlib.read_ndjson(path)
-    if not mutate(evs):
-        raise vlib.ToolError("B3 could not find an event to corrupt in " + path)
-    p2 = path + ".corrupt"
-    vlib.write_ndjson(p2, evs)
-    ok, rej, res = vlib.trace_validate("conc", module, p2)
-    ctx.add_tlc(res)
-    if ok:
-        raise vlib.ToolError("B3 self-test failed: corrupted trace accepted (%s, %s)" % (module, what))
-    ctx.extra.setdefault("b3_rejections", []).append({"module": module, "corruption": what, "rejected_at": rej["idx"]})
-
-
-def split_cases(evs):
-    cases, cur = [], None
-    for e in evs:
-        if e["ev"] == "reset":
-            cur = [e]
-            cases.append(cur)
-        elif cur is not None:
-            cur.append(e)
-    return cases
-
-
-def validate_cases(ctx, module, path, kind):
-    """Validate a multi-case trace; on rejection isolate the case, re-validate it alone, report."""
-    ok, rej, res = vlib.trace_validate("conc", module, path)
-    ctx.add_tlc(res)
-    evs = vlib.read_ndjson(path)
-    cases = split_cases(evs)
-    ctx.traces += len(cases)
-    if ok:
-        return
-    # find the case containing the rejected index
-    idx = rej["idx"]
-    pos = 0
-    for c in cases:
-        if pos < idx <= pos + len(c):
-            single = os.path.join(ctx.work, "isolated_%s.ndjson" % kind)
-            vlib.write_ndjson(single, c)
-            ok2, rej2, res2 = vlib.trace_validate("conc", module, single)
-            ctx.add_tlc(res2)
-            if not ok2:
-                ctx.violation({"what": "recorded execution is not a behaviour of %s" % module, "kind": kind,
-                               "rejected_event": rej2["event"], "event_index": rej2["idx"], "trace": c})
-            else:
-                raise vlib.ToolError("rejection not reproducible in isolation (%s)" % module)
-            break
-        pos += len(c)
-    # validate the remaining cases too (one rejection must not hide the rest)
-    rest = [e for c2 in cases if c2 is not c for e in c2]
-    if rest:
-        p2 = path + ".rest"
-        vlib.write_ndjson(p2, rest)
-        validate_cases(ctx, module, p2, kind)
-        ctx.traces -= len(cases) - 1
-
-
 def run(ctx):
     thorough = ctx.tier == "thorough"
     ctx.rule = ("B1: every history of exactly L calls (get/put/clear over 3 keys, capacities 0..4) enumerated by TLC "
@@ -118,8 +59,8 @@ def run(ctx):
     seqp = os.path.join(ctx.work, "seq.ndjson")
     vlib.vh(["c29", "record", "--seed", ctx.seed, "--cases", 60 if thorough else 20, "--len", 400 if thorough else 200,
              "--out", seqp])
-    validate_cases(ctx, "LruTrace", seqp, "sequential")
-    seq_cases = split_cases(vlib.read_ndjson(seqp))
+    vlib.validate_cases(ctx, "conc", "LruTrace", seqp, "sequential")
+    seq_cases = vlib.split_cases(vlib.read_ndjson(seqp))
     nontriv = 0
     for c in seq_cases:
         ctx.evaluations += 1
@@ -135,8 +76,8 @@ def run(ctx):
         cp = os.path.join(ctx.work, "conc_%d_%d.ndjson" % (threads, ops))
         vlib.vh(["c29", "conc", "--seed", ctx.seed + threads, "--cases", cases, "--threads", threads, "--ops", ops,
                  "--out", cp])
-        validate_cases(ctx, "LruLinTrace", cp, "concurrent")
-        cc = split_cases(vlib.read_ndjson(cp))
+        vlib.validate_cases(ctx, "conc", "LruLinTrace", cp, "concurrent")
+        cc = vlib.split_cases(vlib.read_ndjson(cp))
         for c in cc:
             ctx.evaluations += 1
             # non-trivial: two calls actually overlapped in real time
@@ -175,6 +116,6 @@ def run(ctx):
                 return True
         return False
 
-    corrupt_and_expect_reject(ctx, "LruTrace", seqp, flip_ret, "get result +1")
-    corrupt_and_expect_reject(ctx, "LruTrace", seqp, flip_len, "len after put -1")
-    corrupt_and_expect_reject(ctx, "LruLinTrace", os.path.join(ctx.work, "conc_3_4.ndjson"), flip_conc, "ret value +7")
+    vlib.expect_reject(ctx, "conc", "LruTrace", seqp, flip_ret, "get result +1")
+    vlib.expect_reject(ctx, "conc", "LruTrace", seqp, flip_len, "len after put -1")
+    vlib.expect_reject(ctx, "conc", "LruLinTrace", os.path.join(ctx.work, "conc_3_4.ndjson"), flip_conc, "ret value +7")
